@@ -98,6 +98,18 @@ CHECKS = {
         "The filter reads only co_filename; sysconfig roots of this installation.",
         "6 C17",
     ),
+    "C03": (
+        "exploration",
+        "runtime monitoring: differential untraced/traced runs in fresh interpreters + tripwire hook journal attributing user code to monkeytype frames + fault injection into logger, type collection and function lookup; profiler/flush counters",
+        "Every tripwire kind (attribute hooks, __class__ overrides, descriptors/lazy properties, container subclasses, hash/eq/bool/repr, "
+        "metaclass checks; raising and state-mutating variants) is placed in every position the tracer reads (arguments, returns, yields, "
+        "container elements/keys/values, receivers, module globals, same-named globals, class attributes, callable locals of callers); the "
+        "workload runs untraced and traced in fresh interpreters: results, stdout and the program's own hook calls must be equal and no "
+        "journal entry may have a monkeytype frame on its stack. Single and double faults (log/flush/get_type/get_func raising, values whose "
+        "inspection raises) x block exit x pre-installed profiler: nothing escapes, profiler restored, flush exactly once.",
+        "A hook invoked with a monkeytype frame on the stack is user code run by the tracer; `monkeytype` logger output is not program output.",
+        "6 C03",
+    ),
 }
 
 PENDING = {}
